@@ -202,7 +202,17 @@ Definition op_monitors (cx : Ctx) (pre : State) (op : Op) (accepted : bool) (pos
                             others_same enc_pledge (pledges pre) (pledges post) (rs_creator m) &&
                             bal_same_except pre post []) ]
   | OReportFaults c _ _ =>
-      [ ("authz.faults", negb accepted || (bool_decide (is_Some (nodes pre !! c)) && is_fishman pre c)) ]
+      [ ("authz.faults", negb accepted || (bool_decide (is_Some (nodes pre !! c)) && is_fishman pre c));
+        (* a report is recorded only about an existing, unexpired shard that the accused holds for the named order and data model *)
+        ("authz.report_valid", negb accepted ||
+           forallb (fun kv => bool_decide (is_Some (faults pre !! kv.1)) ||
+              (bool_decide (is_Some (metas pre !! f_data kv.2)) &&
+               match orders pre !! f_order kv.2 with
+               | Some o => String.eqb (o_data o) (f_data kv.2) && inZ (f_shard kv.2) (o_shards o) &&
+                           match shards pre !! f_shard kv.2 with
+                           | Some sh => String.eqb (sh_sp sh) (f_provider kv.2) && (cx_height cx <? u64 (sh_created sh + sh_duration sh))
+                           | None => false end
+               | None => false end)) (map_to_list (faults post))) ]
   | ORecoverFaults c p _ =>
       [ ("authz.faults", negb accepted ||
            match nodes pre !! c with
